@@ -120,7 +120,8 @@ def convert_coord(line, ref):
         if nd == ">" or nd == "<":
             continue
         if ":" in nd and "-" in nd:
-            tmp = nd.rstrip().split(":")
+            # the contig name itself may contain ":": the interval is what follows the LAST one
+            tmp = nd.rstrip().rsplit(":", 1)
             query_contig_name = tmp[0]
             (query_start, query_end) = tmp[1].rstrip().split("-")
         else:
